@@ -1,7 +1,7 @@
 SPECIFICATION Spec
 CONSTANTS
   ModelSel = {1,2,3}
-  BoundSel = {1,2,3}
+  BoundSel = {1,2,5}
   FactorSel = {1,2}
   PriorSel = {1,2,3,4}
   ModeSel = {1,2,3,5,6}
@@ -13,6 +13,9 @@ CONSTANTS
   ObsMerge = "always"
   ModeStore = "canonical"
   UpdateGuard = "before"
+  BoundaryGuard = "none"
+  UpdateArg = "kept"
+  TrackArg = FALSE
   ModeCalls <- MCModeCalls
   InvalidModes <- MCInvalidModes
   ObsParams <- MCObsParams
@@ -34,10 +37,12 @@ INVARIANT TypeOK
 INVARIANT OrderIsDeclarationOrder
 INVARIANT SpacesAgree
 INVARIANT ViewsReadable
+INVARIANT ArgumentKept
 PROPERTY HistoryIndependent
 PROPERTY CompileTakesEnabled
 PROPERTY DefaultsFollowSettings
 PROPERTY RoundTrip
+PROPERTY SameArrayTwice
 PROPERTY OnlyFittedTouched
 PROPERTY FittedAreSet
 PROPERTY SettersKeepValues
